@@ -31,8 +31,30 @@ pub fn z_value(confidence: Confidence) -> f64 {
 /// * if `degrees_of_freedom` is negative or zero
 ///
 pub fn t_value(confidence: Confidence, degrees_of_freedom: f64) -> f64 {
+    use statrs::distribution::Continuous;
+
     let student_t = StudentsT::new(0., 1., degrees_of_freedom).unwrap();
-    student_t.inverse_cdf(confidence.quantile())
+    let p = confidence.quantile();
+    let mut t = student_t.inverse_cdf(p);
+    // The inverse CDF of statrs occasionally stops far from the root for large degrees of freedom
+    // (e.g., 51054 degrees of freedom and p = 0.7505 give 0.0626 instead of 0.676) and loses
+    // accuracy for p close to 1/2: polish the quantile with a few Newton steps on the CDF,
+    // keeping a step only if it brings the CDF closer to p.
+    let mut err = student_t.cdf(t) - p;
+    for _ in 0..8 {
+        let density = student_t.pdf(t);
+        if err == 0. || !(density > 0.) {
+            break;
+        }
+        let candidate = t - err / density;
+        let candidate_err = student_t.cdf(candidate) - p;
+        if !(candidate_err.abs() < err.abs()) {
+            break;
+        }
+        t = candidate;
+        err = candidate_err;
+    }
+    t
 }
 
 const POPULATION_LIMIT: f64 = 100_000.;
